@@ -105,8 +105,8 @@ def _entrypoints(ctx, model, ga):
     f = m.func("get_apply_async")
     for c in _get_async_calls(f):
         n += 1
-        ok = any(isinstance(a, ast.Starred) and unparse(a.value) == "args" for a in c.args) and any(
-            k.arg is None and unparse(k.value) == "kwargs" for k in c.keywords
+        ok = any(isinstance(a, ast.Starred) and eqv(a.value, "args") for a in c.args) and any(
+            k.arg is None and eqv(k.value, "kwargs") for k in c.keywords
         )
         ctx.ob("DELEG.keys-to-result", c, "get_apply_async forwards *args, **kwargs", ok)
     ctx.count("get_async_call_sites", n)
@@ -303,7 +303,7 @@ def _task_and_data(ctx, mod, ga):
         ctx.ob("PAIR.result.store-under-own-key", n, "for key, res_info, failed in queue...: state['cache'][key] = res", ok_key, "" if ok_key else "result stored under a different key than it was reported for")
         ctx.ob("PAIR.result.value-from-worker", n, "res, worker_id = loads(res_info); cache[key] = res", ok_val)
         fins = [c for c in calls(ga, "finish_task", nested=False)]
-        ok_fin = any(len(c.args) >= 2 and same(c.args[1], k) and dominates(ga, n, c) and unparse(c.args[0]) == "dsk" for c in fins)
+        ok_fin = any(len(c.args) >= 2 and same(c.args[1], k) and dominates(ga, n, c) and eqv(c.args[0], "dsk") for c in fins)
         ctx.ob("PAIR.result.store-before-finish", n, "state['cache'][key] = res ; finish_task(dsk, key, ...)", ok_fin, "" if ok_fin else "finish_task is not called for the same key after the result was stored")
         for c in fins:
             b2 = bind_call(c, mod.func("finish_task"))
